@@ -140,13 +140,17 @@ TEXT = {
         "technique": "Lean 4 proof ('sealed' invariant => nodes = connected components; transfer to sequences) + differential correspondence with executable predicate",
     },
     "C05": {
-        "level_text": "Proved: the bucket-pass planning tiles the 256 buckets exactly once for every memory budget, at most 256 passes, CountFilter "
-                      "saturates at the extracted 65535. The main equality (table = pass-free reference grouping, for all read sets) is stated in "
-                      "Lean but not yet proved; it is decided by evaluating the reference on the crate's output while the hook sweeps the real pass "
-                      "count over 1..256 (the count is reported back by the hook and recorded in the evidence).",
+        "level_text": "Theorem C05_filter_eq_ref: for every read set with labels, every K>=4, both strandedness and report_all values, both summarizers and "
+                      "every memory budget >= 1 (hence every number of bucket passes 1..256) the model of filter_kmers - pass planning loop, per-pass "
+                      "bucket filling, stable sort, run grouping, summarising - returns exactly the pass-free reference: the distinct canonical "
+                      "k-mers in ascending order, each summarised once over its observations in input order, and the all-k-mers list = every "
+                      "distinct k-mer ascending. Corollary C05_pass_independent. Proved via: the planned ranges enumerate buckets 0..255 in order "
+                      "(induction over the while loop), the insertion sort is stable and sorting, run grouping of a sorted list = distinct keys with "
+                      "their observations, buckets are monotone in the key order, strictly ascending lists with equal members are equal. The same "
+                      "reference is evaluated on the crate's output while the hook sweeps the real pass count over 1..256.",
         "design_ref": "DESIGN.md section 6, C05",
-        "level_note": COMMON_NOTE + "Partial: filter_eq_ref not proved. Uses the verif_hooks bytes-per-unit override and pass counter.",
-        "technique": "Lean 4 proof (pass planning) + differential correspondence with executable reference over all pass counts",
+        "level_note": COMMON_NOTE + "sort_by_key is modelled as a stable insertion sort, group_by as maximal runs (contracts). Uses the verif_hooks bytes-per-unit override and pass counter.",
+        "technique": "Lean 4 proof (algorithm = reference grouping, for all inputs and budgets) + differential correspondence with executable reference over all pass counts",
     },
     "C03": {
         "level_text": "Proved for every graph of the model: find_link is sound (the returned node's terminal k-mer on the reported side equals the "
